@@ -471,7 +471,9 @@ def r1_tables_agree(ctx):
                       "come back with stray characters (step names are no "
                       "longer preprocessing identifiers)")
     # prefix agreement
-    wp = [norm(s.targets[0].slice) for s in ast.walk(wloop)
+    from ..symres import Resolver as _Rw
+    _rw = _Rw(W.fn, keep={norm(wloop.target)})
+    wp = [norm(_rw.resolve(s.targets[0].slice)) for s in ast.walk(wloop)
           if isinstance(s, ast.Assign) and isinstance(
               s.targets[0], ast.Subscript)
           and norm(s.targets[0].value).endswith(".attrs")]
